@@ -1,5 +1,5 @@
 //@ unit U-SHREG
-//@ props C18 C05
+//@ props C18 C05 C11
 //@ verus-args --rlimit 150
 //@ config CHUNK_INDEX_TABLE_MAX_SIZE
 //@ gsubst `PathBuf` => `VxPathBuf` :: R11 stub type (std::path::PathBuf; never inspected by the function under proof)
@@ -112,6 +112,16 @@ fn vx_entry_or_insert(m: &mut HashMap<MerkleHash, usize>, k: MerkleHash, v: usiz
         old(m)@.contains_key(k) ==> final(m)@ == old(m)@ && r == old(m)@[k],
         !old(m)@.contains_key(k) ==> final(m)@ == old(m)@.insert(k, v) && r == v,
 { *m.entry(k).or_insert(v) }
+
+// outline target of rule R7e (statement form): `m.entry(k).or_insert(v);` — keeps an existing value. Unused on the pinned
+// tree (which calls `insert`, specified by vstd: the new value replaces an existing one); present so that a change of the
+// table-filling call from `insert` to `entry().or_insert()` is decided, not undecided.
+#[verifier::external_body]
+fn vx_entry_or_insert_drop(m: &mut HashMap<u64, ChunkCacheElement>, k: u64, v: ChunkCacheElement)
+    ensures
+        old(m)@.contains_key(k) ==> final(m)@ == old(m)@,
+        !old(m)@.contains_key(k) ==> final(m)@ == old(m)@.insert(k, v),
+{ m.entry(k).or_insert(v); }
 
 // ---- abstract view of the bookkeeper: the sequence of collections (key, shards, lookup map), the key -> index map, the
 // shard-hash -> location map ---------------------------------------------------------------------------------------------
@@ -323,20 +333,137 @@ proof fn lemma_coll_push(c0: KeyedShardCollection, c1: KeyedShardCollection, s: 
         assert(c1.shard_list@[e.shard_index as int] == c0.shard_list@[e.shard_index as int]);
     }
 }
-proof fn lemma_coll_insert(c0: KeyedShardCollection, c1: KeyedShardCollection, h: u64, e: ChunkCacheElement)
-    requires coll_wf(c0), c1.hmac_key == c0.hmac_key, c1.shard_list@ == c0.shard_list@, c1.chunk_lookup@ == c0.chunk_lookup@.insert(h, e),
-        (e.shard_index as int) < c0.shard_list@.len(),
-        skey(*c0.shard_list@[e.shard_index as int]) == c0.hmac_key,
-        direct_pre(file_bytes(*c0.shard_list@[e.shard_index as int]), c0.shard_list@[e.shard_index as int].shard, e.cas_start_index, e.cas_chunk_offset as u32),
-    ensures coll_wf(c1),
+// stated over the table the insertion WOULD produce, so that the hint can sit before the table-filling call
+proof fn lemma_coll_insert(key: MerkleHash, shards: Seq<Arc<MDBShardFile>>, lookup: Map<u64, ChunkCacheElement>, h: u64, e: ChunkCacheElement)
+    requires coll_wf_parts(key, shards, lookup),
+        (e.shard_index as int) < shards.len(),
+        skey(*shards[e.shard_index as int]) == key,
+        direct_pre(file_bytes(*shards[e.shard_index as int]), shards[e.shard_index as int].shard, e.cas_start_index, e.cas_chunk_offset as u32),
+    ensures coll_wf_parts(key, shards, lookup.insert(h, e)),
 {
-    assert forall|k: u64| c1.chunk_lookup@.contains_key(k) implies ({
-        let e1 = #[trigger] c1.chunk_lookup@[k];
-        &&& (e1.shard_index as int) < c1.shard_list@.len()
-        &&& c1.shard_list@[e1.shard_index as int].shard.metadata.chunk_hash_hmac_key == c1.hmac_key
-        &&& direct_pre(file_bytes(*c1.shard_list@[e1.shard_index as int]), c1.shard_list@[e1.shard_index as int].shard, e1.cas_start_index, e1.cas_chunk_offset as u32)
+    let l1 = lookup.insert(h, e);
+    assert forall|k: u64| l1.contains_key(k) implies ({
+        let e1 = #[trigger] l1[k];
+        &&& (e1.shard_index as int) < shards.len()
+        &&& shards[e1.shard_index as int].shard.metadata.chunk_hash_hmac_key == key
+        &&& direct_pre(file_bytes(*shards[e1.shard_index as int]), shards[e1.shard_index as int].shard, e1.cas_start_index, e1.cas_chunk_offset as u32)
     }) by {
-        if k != h { let e0 = c0.chunk_lookup@[k]; }
+        if k != h { let e0 = lookup[k]; }
+    }
+}
+
+// ---- C11: a just-registered shard answers for its own chunks ---------------------------------------------------------------
+// number of shards collection i held when the call started (0 for a collection created by the call)
+spec fn oldlen(old_cs: Seq<KeyedShardCollection>, i: int) -> int { if 0 <= i < old_cs.len() { old_cs[i].shard_list@.len() as int } else { 0 } }
+spec fn oldlookup(old_cs: Seq<KeyedShardCollection>, i: int) -> Map<u64, ChunkCacheElement> { if 0 <= i < old_cs.len() { old_cs[i].chunk_lookup@ } else { Map::empty() } }
+// the table entry for truncated hash h designates a shard pushed at/after position l, i.e. a shard of THIS call
+spec fn fresh(c: KeyedShardCollection, l: int, h: u64) -> bool { c.chunk_lookup@.contains_key(h) && c.chunk_lookup@[h].shard_index as int >= l }
+// every dedup-eligible row of shard s's truncated-hash table (chunk offset representable in the entry's u16) is answered by a shard of this call
+spec fn shard_fresh(c: KeyedShardCollection, l: int, s: MDBShardFile) -> bool {
+    forall|j: int| 0 <= j < trunc_table(s).len() && (#[trigger] trunc_table(s)[j]).1.1 <= 65535 ==> fresh(c, l, trunc_table(s)[j].0)
+}
+spec fn coll_fresh(l: int, c: KeyedShardCollection) -> bool {
+    forall|j: int| l <= j < c.shard_list@.len() ==> shard_fresh(c, l, *#[trigger] c.shard_list@[j])
+}
+spec fn all_fresh(old_cs: Seq<KeyedShardCollection>, cs: Seq<KeyedShardCollection>) -> bool {
+    forall|i: int| 0 <= i < cs.len() ==> coll_fresh(oldlen(old_cs, i), #[trigger] cs[i])
+}
+// frame: a truncated hash that occurs in the table of no shard pushed by this call keeps its entry (or its absence)
+spec fn table_has(s: MDBShardFile, h: u64) -> bool { exists|j: int| 0 <= j < trunc_table(s).len() && (#[trigger] trunc_table(s)[j]).0 == h }
+spec fn same_at(a: Map<u64, ChunkCacheElement>, b: Map<u64, ChunkCacheElement>, h: u64) -> bool {
+    (a.contains_key(h) <==> b.contains_key(h)) && (a.contains_key(h) ==> a[h] == b[h])
+}
+spec fn coll_frame(old_lookup: Map<u64, ChunkCacheElement>, l: int, c: KeyedShardCollection) -> bool {
+    forall|h: u64| (forall|j: int| l <= j < c.shard_list@.len() ==> !table_has(*#[trigger] c.shard_list@[j], h)) ==> #[trigger] same_at(c.chunk_lookup@, old_lookup, h)
+}
+spec fn all_frame(old_cs: Seq<KeyedShardCollection>, cs: Seq<KeyedShardCollection>) -> bool {
+    forall|i: int| 0 <= i < cs.len() ==> coll_frame(oldlookup(old_cs, i), oldlen(old_cs, i), #[trigger] cs[i])
+}
+// one shard's worth of table filling, at collection level
+proof fn lemma_coll_c11(old_lookup: Map<u64, ChunkCacheElement>, l: int, c0: KeyedShardCollection, cf: KeyedShardCollection, s: Arc<MDBShardFile>, indexed: bool)
+    requires
+        coll_frame(old_lookup, l, c0), 0 <= l <= c0.shard_list@.len(), cf.shard_list@ == c0.shard_list@.push(s),
+        forall|h: u64| !table_has(*s, h) ==> #[trigger] same_at(cf.chunk_lookup@, c0.chunk_lookup@, h),
+        indexed ==> shard_fresh(cf, l, *s) && coll_fresh(l, c0) && (forall|h: u64| #[trigger] fresh(c0, l, h) ==> fresh(cf, l, h)),
+    ensures coll_frame(old_lookup, l, cf), indexed ==> coll_fresh(l, cf),
+{
+    let n0 = c0.shard_list@.len() as int;
+    assert forall|h: u64| (forall|j: int| l <= j < cf.shard_list@.len() ==> !table_has(*#[trigger] cf.shard_list@[j], h)) implies #[trigger] same_at(cf.chunk_lookup@, old_lookup, h) by {
+        assert(cf.shard_list@[n0] == s);
+        assert(!table_has(*s, h));
+        assert forall|j: int| l <= j < c0.shard_list@.len() implies !table_has(*#[trigger] c0.shard_list@[j], h) by { assert(cf.shard_list@[j] == c0.shard_list@[j]); }
+        assert(same_at(c0.chunk_lookup@, old_lookup, h));
+        assert(same_at(cf.chunk_lookup@, c0.chunk_lookup@, h));
+    }
+    if indexed {
+        assert forall|j: int| l <= j < cf.shard_list@.len() implies shard_fresh(cf, l, *#[trigger] cf.shard_list@[j]) by {
+            if j < n0 {
+                assert(cf.shard_list@[j] == c0.shard_list@[j]);
+                let t = *c0.shard_list@[j];
+                assert(shard_fresh(c0, l, t));
+                assert forall|jj: int| 0 <= jj < trunc_table(t).len() && (#[trigger] trunc_table(t)[jj]).1.1 <= 65535 implies fresh(cf, l, trunc_table(t)[jj].0) by {
+                    assert(fresh(c0, l, trunc_table(t)[jj].0));
+                }
+            } else { assert(cf.shard_list@[j] == s); }
+        }
+    }
+}
+// collections other than the updated one are carried over
+proof fn lemma_all_c11(old_cs: Seq<KeyedShardCollection>, cs0: Seq<KeyedShardCollection>, cs2: Seq<KeyedShardCollection>, idx: int, fresh_known: bool)
+    requires all_frame(old_cs, cs0), fresh_known ==> all_fresh(old_cs, cs0),
+        old_cs.len() <= cs0.len() <= cs2.len(), 0 <= idx < cs2.len(),
+        coll_frame(oldlookup(old_cs, idx), oldlen(old_cs, idx), cs2[idx]), fresh_known ==> coll_fresh(oldlen(old_cs, idx), cs2[idx]),
+        forall|i: int| 0 <= i < cs0.len() && i != idx ==> (#[trigger] cs2[i]).shard_list@ == cs0[i].shard_list@ && cs2[i].chunk_lookup@ == cs0[i].chunk_lookup@,
+        forall|i: int| cs0.len() <= i < cs2.len() && i != idx ==> (#[trigger] cs2[i]).shard_list@.len() == 0 && cs2[i].chunk_lookup@ == Map::<u64, ChunkCacheElement>::empty(),
+    ensures all_frame(old_cs, cs2), fresh_known ==> all_fresh(old_cs, cs2),
+{
+    assert forall|i: int| 0 <= i < cs2.len() implies coll_frame(oldlookup(old_cs, i), oldlen(old_cs, i), #[trigger] cs2[i]) by {
+        if i != idx {
+            if i < cs0.len() {
+                assert(coll_frame(oldlookup(old_cs, i), oldlen(old_cs, i), cs0[i]));
+                assert forall|h: u64| (forall|j: int| oldlen(old_cs, i) <= j < cs2[i].shard_list@.len() ==> !table_has(*#[trigger] cs2[i].shard_list@[j], h))
+                    implies #[trigger] same_at(cs2[i].chunk_lookup@, oldlookup(old_cs, i), h) by {
+                    assert forall|j: int| oldlen(old_cs, i) <= j < cs0[i].shard_list@.len() implies !table_has(*#[trigger] cs0[i].shard_list@[j], h) by {
+                        assert(cs2[i].shard_list@[j] == cs0[i].shard_list@[j]);
+                    }
+                    assert(same_at(cs0[i].chunk_lookup@, oldlookup(old_cs, i), h));
+                }
+            } else {
+                assert forall|h: u64| true implies #[trigger] same_at(cs2[i].chunk_lookup@, oldlookup(old_cs, i), h) by {}
+            }
+        }
+    }
+    if fresh_known {
+        assert forall|i: int| 0 <= i < cs2.len() implies coll_fresh(oldlen(old_cs, i), #[trigger] cs2[i]) by {
+            if i != idx && i < cs0.len() {
+                assert(coll_fresh(oldlen(old_cs, i), cs0[i]));
+                assert forall|j: int| oldlen(old_cs, i) <= j < cs2[i].shard_list@.len() implies shard_fresh(cs2[i], oldlen(old_cs, i), *#[trigger] cs2[i].shard_list@[j]) by {
+                    let t = *cs0[i].shard_list@[j];
+                    assert(shard_fresh(cs0[i], oldlen(old_cs, i), t));
+                    assert forall|jj: int| 0 <= jj < trunc_table(t).len() && (#[trigger] trunc_table(t)[jj]).1.1 <= 65535 implies fresh(cs2[i], oldlen(old_cs, i), trunc_table(t)[jj].0) by {
+                        assert(fresh(cs0[i], oldlen(old_cs, i), trunc_table(t)[jj].0));
+                    }
+                }
+            }
+        }
+    }
+}
+
+// the key step appends at most one empty collection
+proof fn lemma_all_c11_key(old_cs: Seq<KeyedShardCollection>, cs0: Seq<KeyedShardCollection>, cs1: Seq<KeyedShardCollection>, fresh_known: bool)
+    requires all_frame(old_cs, cs0), fresh_known ==> all_fresh(old_cs, cs0), old_cs.len() <= cs0.len(),
+        cs1 == cs0 || (cs1.len() == cs0.len() + 1 && (forall|i: int| 0 <= i < cs0.len() ==> cs1[i] == cs0[i])
+            && cs1[cs0.len() as int].shard_list@.len() == 0 && cs1[cs0.len() as int].chunk_lookup@ == Map::<u64, ChunkCacheElement>::empty()),
+    ensures all_frame(old_cs, cs1), fresh_known ==> all_fresh(old_cs, cs1),
+{
+    if cs1 != cs0 {
+        let n = cs0.len() as int;
+        assert forall|i: int| 0 <= i < cs1.len() implies coll_frame(oldlookup(old_cs, i), oldlen(old_cs, i), #[trigger] cs1[i]) by {
+            if i < n { assert(cs1[i] == cs0[i]); } else { assert forall|h: u64| true implies #[trigger] same_at(cs1[i].chunk_lookup@, oldlookup(old_cs, i), h) by {} }
+        }
+        if fresh_known {
+            assert forall|i: int| 0 <= i < cs1.len() implies coll_fresh(oldlen(old_cs, i), #[trigger] cs1[i]) by { if i < n { assert(cs1[i] == cs0[i]); } }
+        }
     }
 }
 
@@ -365,6 +492,13 @@ impl ShardFileManager {
             /*@C18*/ r is Ok ==> forall|k: int| 0 <= k < new_shards@.len() ==> final(sbkp_lg).shard_lookup_by_shard_hash@.contains_key((#[trigger] new_shards@[k]).shard_hash),
             /*@C18*/ new_entries_ok(old(sbkp_lg).shard_lookup_by_shard_hash@, final(sbkp_lg).shard_collections@, final(sbkp_lg).collection_by_key@,
                                     final(sbkp_lg).shard_lookup_by_shard_hash@, new_shards@, new_shards@.len() as int),
+            // (5) a just-registered shard answers for its own chunks: while the index cap is not reached, for every shard pushed by
+            // this call and every dedup-eligible truncated hash of its table, the collection's entry for that hash designates a
+            // shard pushed by THIS call (index at/after the collection's length at entry) — newest registration wins across calls
+            /*@C11*/ r is Ok && final(sbkp_lg).total_indexed_chunks < spec_CHUNK_INDEX_TABLE_MAX_SIZE() ==>
+                all_fresh(old(sbkp_lg).shard_collections@, final(sbkp_lg).shard_collections@),
+            // (6) frame: the entry (or absence) for a truncated hash that occurs in no table of a shard pushed by this call is unchanged
+            /*@C11*/ all_frame(old(sbkp_lg).shard_collections@, final(sbkp_lg).shard_collections@),
 //@ loop 1
             invariant
                 shreg_config_ok(),
@@ -380,6 +514,8 @@ impl ShardFileManager {
                 forall|k: int| 0 <= k < vx_n1 ==> sbkp_lg.shard_lookup_by_shard_hash@.contains_key((#[trigger] new_shards@[k]).shard_hash),
                 new_entries_ok(old(sbkp_lg).shard_lookup_by_shard_hash@, sbkp_lg.shard_collections@, sbkp_lg.collection_by_key@,
                                sbkp_lg.shard_lookup_by_shard_hash@, new_shards@, vx_n1 as int),
+                all_frame(old(sbkp_lg).shard_collections@, sbkp_lg.shard_collections@),
+                sbkp_lg.total_indexed_chunks < spec_CHUNK_INDEX_TABLE_MAX_SIZE() ==> all_fresh(old(sbkp_lg).shard_collections@, sbkp_lg.shard_collections@),
             decreases new_shards@.len() - vx_n1,
 //@ before `s.verify_shard_integrity_debug_only();`
             let ghost bk0 = *sbkp_lg; let ghost k0 = (vx_n1 - 1) as int;
@@ -389,13 +525,19 @@ impl ShardFileManager {
                 lemma_extend_step(ocs, bk0.shard_collections@, bk0.shard_collections@, new_shards@, k0, bk0.collection_by_key@, bk0.collection_by_key@, bk0.shard_lookup_by_shard_hash@, bk0.shard_lookup_by_shard_hash@);
                 lemma_entries_step(obh, bk0.shard_collections@, bk0.shard_collections@, bk0.collection_by_key@, bk0.collection_by_key@, bk0.shard_lookup_by_shard_hash@, bk0.shard_lookup_by_shard_hash@, new_shards@, k0);
             }
-//@ before `let update_chunk_lookup`
+//@ before `let shard_index;`
             let ghost bk1 = *sbkp_lg;
             proof {
                 lemma_key_step(bk0.shard_collections@, bk0.collection_by_key@, bk0.shard_lookup_by_shard_hash@, shard_hmac_key, bk1.shard_collections@, bk1.collection_by_key@, shard_col_index);
             }
             let ghost c0 = sbkp_lg.shard_collections@[shard_col_index as int];
             let ghost mut cf = c0;
+            let ghost ll = oldlen(ocs, shard_col_index as int);
+            proof {
+                // C11 bookkeeping carried across the key step (the only possible change so far: an empty collection appended)
+                lemma_all_c11_key(ocs, bk0.shard_collections@, bk1.shard_collections@, update_chunk_lookup);
+                assert(0 <= ll <= c0.shard_list@.len());
+            }
 //@ before `let old_chunk_lookup_size`
                 proof {
                     lemma_coll_push(c0, *shard_col, *s);
@@ -407,6 +549,10 @@ impl ShardFileManager {
                                      bk0.shard_lookup_by_shard_hash@, bk0.shard_lookup_by_shard_hash@, bk1.shard_lookup_by_shard_hash@);
                     lemma_extend_step(ocs, bk0.shard_collections@, cs2, new_shards@, k0, bk0.collection_by_key@, bk1.collection_by_key@, bk0.shard_lookup_by_shard_hash@, bk1.shard_lookup_by_shard_hash@);
                     lemma_entries_step(obh, bk0.shard_collections@, cs2, bk0.collection_by_key@, bk1.collection_by_key@, bk0.shard_lookup_by_shard_hash@, bk1.shard_lookup_by_shard_hash@, new_shards@, k0);
+                    // frame on that exit: no table entry touched
+                    assert forall|hh: u64| !table_has(**s, hh) implies #[trigger] same_at(cf.chunk_lookup@, c0.chunk_lookup@, hh) by {}
+                    lemma_coll_c11(oldlookup(ocs, shard_col_index as int), ll, c0, cf, *s, false);
+                    lemma_all_c11(ocs, bk1.shard_collections@, cs2, shard_col_index as int, false);
                 }
 //@ loop 2
                         invariant
@@ -417,16 +563,35 @@ impl ShardFileManager {
                             shard_index == c0.shard_list@.len(), shard_index <= 65535,
                             shard_col.chunk_lookup@.dom().finite(),
                             old_chunk_lookup_size <= shard_col.chunk_lookup@.len() <= old_chunk_lookup_size + vx_n2,
+                            0 <= ll <= shard_index,
+                            forall|jj: int| 0 <= jj < vx_n2 && (#[trigger] trunc_table(**s)[jj]).1.1 <= 65535 ==> fresh(*shard_col, ll, trunc_table(**s)[jj].0),
+                            forall|hh: u64| #[trigger] fresh(c0, ll, hh) ==> fresh(*shard_col, ll, hh),
+                            forall|hh: u64| (forall|jj: int| 0 <= jj < vx_n2 ==> (#[trigger] trunc_table(**s)[jj]).0 != hh) ==> #[trigger] same_at(shard_col.chunk_lookup@, c0.chunk_lookup@, hh),
                         decreases insert_hashes@.len() - vx_n2,
-//@ before `shard_col.chunk_lookup.insert(`
-                        let ghost cb = *shard_col;
-//@ after `shard_index: shard_index as u16, }, );`
+//@ after `let cas_chunk_offset = cas_chunk_offset as u16;`
                         proof {
+                            // everything is stated about the table `insert(h, e)` WOULD produce; a call that leaves the table unchanged
+                            // is covered by the invariants as they stand
+                            let e = ChunkCacheElement { cas_start_index, cas_chunk_offset, shard_index: shard_index as u16 };
+                            let m0 = shard_col.chunk_lookup@; let m1 = m0.insert(h, e);
                             assert(trunc_table(**s)[vx_n2 - 1] == (h, (cas_start_index, cas_chunk_offset as u32)));
-                            lemma_coll_insert(cb, *shard_col, h, shard_col.chunk_lookup@[h]);
+                            lemma_coll_insert(shard_col.hmac_key, shard_col.shard_list@, m0, h, e);
+                            assert forall|hh: u64| (forall|jj: int| 0 <= jj < vx_n2 ==> (#[trigger] trunc_table(**s)[jj]).0 != hh)
+                                implies #[trigger] same_at(m1, c0.chunk_lookup@, hh) by {
+                                assert(trunc_table(**s)[vx_n2 - 1].0 != hh);
+                                assert(same_at(m0, c0.chunk_lookup@, hh));
+                            }
                         }
 //@ before `num_inserted_chunks =`
-                proof { cf = *shard_col; }
+                proof {
+                    cf = *shard_col;
+                    assert forall|hh: u64| !table_has(**s, hh) implies #[trigger] same_at(cf.chunk_lookup@, c0.chunk_lookup@, hh) by {
+                        if update_chunk_lookup { assert(forall|jj: int| 0 <= jj < trunc_table(**s).len() ==> (#[trigger] trunc_table(**s)[jj]).0 != hh); }
+                    }
+                    assert(coll_frame(oldlookup(ocs, shard_col_index as int), ll, c0));
+                    if update_chunk_lookup { assert(coll_fresh(ll, c0)); }
+                    lemma_coll_c11(oldlookup(ocs, shard_col_index as int), ll, c0, cf, *s, update_chunk_lookup);
+                }
 //@ before `sbkp_lg.total_indexed_chunks += num_inserted_chunks;`
             proof {
                 let bk3 = *sbkp_lg;
@@ -438,6 +603,7 @@ impl ShardFileManager {
                     assert(new_shards@[k0].shard_hash == s.shard_hash);
                 }
                 lemma_entries_step(obh, bk0.shard_collections@, bk3.shard_collections@, bk0.collection_by_key@, bk3.collection_by_key@, bk0.shard_lookup_by_shard_hash@, bk3.shard_lookup_by_shard_hash@, new_shards@, k0);
+                lemma_all_c11(ocs, bk1.shard_collections@, bk3.shard_collections@, shard_col_index as int, update_chunk_lookup);
                 assert forall|i: int| 0 <= i < bk3.shard_collections@.len() implies (#[trigger] bk3.shard_collections@[i]).shard_list@.len() + (new_shards@.len() - vx_n1) <= 65536 by {
                     if i != shard_col_index { assert(bk3.shard_collections@[i] == bk1.shard_collections@[i]); if i < bk0.shard_collections@.len() { assert(bk1.shard_collections@[i].shard_list@.len() == bk0.shard_collections@[i].shard_list@.len()) by { if bk0.collection_by_key@.contains_key(shard_hmac_key) {} else { assert(bk1.shard_collections@[i] == bk0.shard_collections@[i]); } } } }
                     else if i < bk0.shard_collections@.len() { assert(bk1.shard_collections@[i] == bk0.shard_collections@[i]); }
